@@ -1,14 +1,19 @@
 #!/bin/bash
-# applies every seeded change to /repo in turn (git apply), runs the check of the property it breaks, reverts.
-# writes seeded/<id>/result.txt ; prints one line per seed
+# applies every seeded change to /repo in turn (git apply), runs the check of the property it breaks (and of the properties
+# listed under "also_check" in its meta.json), reverts.  writes seeded/<id>/result.txt ; prints one line per seed.
+# usage: seedrun.sh [seed-id ...]      (default: all)        NOTHING else may use /repo or edit tools/ contracts/ meanwhile
 cd /verif
-for d in /verif/seeded/*/; do
-  id=$(basename $d)
-  prop=$(python3 -c "import json; print(json.load(open('$d/meta.json'))['property'])" 2>/dev/null || echo ${id%%-*})
+ids="$@"; [ -z "$ids" ] && ids=$(ls /verif/seeded)
+for id in $ids; do
+  d=/verif/seeded/$id
+  props=$(python3 -c "import json; m=json.load(open('$d/meta.json')); print(' '.join([m['property']] + m.get('also_check', [])))" 2>/dev/null || echo ${id%%-*})
   if ! git -C /repo apply --check $d/patch.diff 2>/dev/null; then echo "SEED $id: patch does not apply to the current /repo" | tee $d/result.txt; continue; fi
   git -C /repo apply $d/patch.diff
-  out=$(python3 tools/vf.py check $prop 2>&1); rc=$?
+  : > $d/result.txt
+  for prop in $props; do
+    out=$(python3 tools/vf.py check $prop 2>&1); rc=$?
+    { echo "seed=$id property=$prop exit=$rc"; echo "$out" | grep -E "^VIOLATION" | head -5 | cut -c1-400; echo "$out" | grep -E "^UNDECIDED" | head -3 | cut -c1-300; echo "$out" | tail -1; } >> $d/result.txt
+    echo "SEED $id $prop exit=$rc $(echo "$out" | grep -c '^VIOLATION') violations ($(echo "$out" | grep '^VIOLATION' | grep -vc 'no-failing-input-found') replayed natively) $(echo "$out" | grep -c '^UNDECIDED') undecided"
+  done
   git -C /repo checkout -- .
-  { echo "seed=$id property=$prop exit=$rc"; echo "$out" | grep -E "^VIOLATION" | head -5 | cut -c1-400; echo "$out" | tail -1; } > $d/result.txt
-  echo "SEED $id $prop exit=$rc $(echo "$out" | grep -c '^VIOLATION') violations $(echo "$out" | grep -c '^UNDECIDED') undecided"
 done
